@@ -529,18 +529,38 @@ def rule_LVL(FA):
 
 
 def _other_uses(F, ref_local, craft_bb):
-    """Is the map behind `ref_local` (a &mut) handed to anything else than craft_wm_codes?"""
+    """Is the map behind `ref_local` (a &mut, possibly a reborrow chain) mutably borrowed or written
+    anywhere else than for the craft_wm_codes call?"""
     if ref_local is None:
         return ''
-    ds = F.defs.get(ref_local, [])
-    if len(ds) != 1 or ds[0][1] != 'assign' or ds[0][2]['k'] != 'ref':
+    chain = set()
+    cur = ref_local
+    owner = None
+    for _ in range(6):
+        ds = F.defs.get(cur, [])
+        if len(ds) != 1 or ds[0][1] != 'assign':
+            break
+        rv = ds[0][2]
+        chain.add(cur)
+        if rv['k'] == 'ref':
+            base = rv['p']['l']
+            if rv['p']['proj'] == ['*']:
+                cur = base
+                continue
+            if not rv['p']['proj']:
+                owner = base
+            break
+        if rv['k'] == 'use' and 'p' in rv['a'] and not rv['a']['p']['proj']:
+            cur = rv['a']['p']['l']
+            continue
+        break
+    if owner is None:
         return ''
-    owner = ds[0][2]['p']['l']
     uses = []
     for bi, b in enumerate(F.blocks):
         for s in b['s']:
             rv = s.get('rv')
-            if rv and rv['k'] == 'ref' and rv['p']['l'] == owner and rv.get('mut') and s['lhs']['l'] != ref_local:
+            if rv and rv['k'] == 'ref' and rv['p']['l'] == owner and rv.get('mut') and s['lhs']['l'] not in chain:
                 uses.append('another &mut borrow at %s' % s['line'])
             if 'lhs' in s and s['lhs']['l'] == owner and s['lhs']['proj']:
                 uses.append('direct write at %s' % s['line'])
